@@ -122,6 +122,35 @@ theorem serialize_says_metadata_FN_partial (ft : Feat) (e : Xs.Bind.BEnv) (Γ : 
     serialize_says_metadata_partial e Γ scfg v cfg hcfg m hm evs es hg hc hok (hplain hex)
   exact ⟨evs, es, toks, t, hg, hc, h1, h2, h3⟩
 
+/-- **serialize_xsi_types_resolve (fragments)** — `xsi:type` included: for every universe and instance
+in C01's fragments (inheritance included, no `valExactOK`) with lexically sound names and strings and
+every user prefix map in `userMapOK`, the generated events are a document `START q, attrs, kids, END q`
+and, whatever the handler computes for its root (`tag`, `M2`, `A`, `f`), the root and EVERY element
+below it carries each QName-valued attribute — the `xsi:type` markers of subclass instances — with a
+text that resolves, in the namespace scope an XML reader has for that element, to the QName the
+generator asked for (the class's qualified name), or with the bare local name (findings
+c03-qname-default-ns / -reset).  Together with `serialize_denotes_sax_tree_FN_partial` (the document
+is the tree of the handler's calls, attribute texts included) this is `serialize_says_metadata`
+with the type markers. -/
+theorem serialize_xsi_types_resolve_FN_partial (ft : Feat) (e : Xs.Bind.BEnv) (Γ : Xs.Bind.Ctx)
+    (scfg : Xs.Bind.SerCfg) (c : Xs.Bind.ClassId) (v : Xs.Bind.Val)
+    (m : List (Pfx × Str)) (hm : userMapOK tblNsEnv m = true)
+    (hΓ : ctxOK ft Γ = true) (hv : valOKI ft.inherit e Γ c v = true)
+    (hΓl : ctxLexOK Γ = true) (hvl : valLexOK Γ v = true) :
+    ∃ evs q attrs kids, Xs.Bind.generate e Γ scfg v = .ok evs ∧ convEvs evs = some (document q attrs kids)
+      ∧ ∀ (tag : EName) (M2 : NsMap) (A : Proofs.TreeWriter.Attrs) (f : Proofs.TreeWriter.Flushed),
+          splitQName q = .ok tag →
+          Proofs.TreeWriter.attrsRun tblNsEnv attrs (addNamespace tblNsEnv tag.1 (serializerNsMap m)) [] = some (M2, A) →
+          Proofs.QNameEverywhere.bodyFlush tblNsEnv [] tag A M2 kids = some f →
+          Proofs.QNameEverywhere.AttrsResolve tblNsEnv attrs A (applyDecls [] (newPrefixes [] f.map))
+          ∧ Proofs.QNameEverywhere.QAll tblNsEnv f.map (applyDecls [] (newPrefixes [] f.map)) kids := by
+  obtain ⟨evs, es, hg, hc, hok, _⟩ := generate_events_ok ft e Γ scfg c v (userDefault m) hΓ hv hΓl hvl
+  obtain ⟨q, attrs, kids, hdoc, hcont, _⟩ :=
+    Proofs.ComposeBridge.generated_document tblNsEnv (userDefault m) e Γ scfg v evs es hg hc hok
+  refine ⟨evs, q, attrs, kids, hg, by rw [hc, hdoc], ?_⟩
+  intro tag M2 A f hq ha hf
+  exact qname_values_resolve_everywhere_partial m hm q attrs kids hcont tag hq M2 A ha f hf
+
 /-! ### the hypotheses are satisfiable -/
 
 /-- C01's universe with inheritance (`Root` with `c: List[Base]`, a nillable `d: Optional[Sub]`,
@@ -134,6 +163,14 @@ example : ctxOK Props.C01.featF7 Props.C01.Γ7 = true
     ∧ valExactOK Props.C01.Γ7 Props.C01.v7 = false
     ∧ userMapOK tblNsEnv [(none, ['u', 'r', 'n', ':', 's']), (some ['n', 's', '0'], ['u', 'r', 'n', ':', 'z'])] = true := by
   refine ⟨?_, ?_, ?_, ?_, ?_, ?_⟩ <;> decide +kernel
+
+/-- the same universe and instance (subclass instances under `c` and `d`, written with `xsi:type`)
+satisfy the hypotheses of `serialize_xsi_types_resolve_FN_partial` -/
+example : ctxOK Props.C01.featF7 Props.C01.Γ7 = true
+    ∧ valOKI Props.C01.featF7.inherit Props.C01.e0 Props.C01.Γ7 (Props.C01.s "Root") Props.C01.v7 = true
+    ∧ ctxLexOK Props.C01.Γ7 = true ∧ valLexOK Props.C01.Γ7 Props.C01.v7 = true
+    ∧ userMapOK tblNsEnv [(none, ['u', 'r', 'n', ':', 's'])] = true := by
+  refine ⟨?_, ?_, ?_, ?_, ?_⟩ <;> decide +kernel
 
 /-- C01's universe with nillable vars, token lists and a wrapped list, and its instance: inside the
 hypotheses of `serialize_says_metadata_FN_partial` -/
